@@ -242,9 +242,9 @@ func newGridCons(w, h uint32) *gridCons {
 }
 
 func (g *gridCons) Dimensions(console.Dimension) (uint32, uint32) { return g.w, g.h }
-func (g *gridCons) DefaultColors() (uint8, uint8)                  { return 7, 0 }
-func (g *gridCons) Palette() color.Palette                         { return nil }
-func (g *gridCons) SetPaletteColor(uint8, color.RGBA)              { g.touches++ }
+func (g *gridCons) DefaultColors() (uint8, uint8)                 { return 7, 0 }
+func (g *gridCons) Palette() color.Palette                        { return nil }
+func (g *gridCons) SetPaletteColor(uint8, color.RGBA)             { g.touches++ }
 
 // Fill draws the part of the rectangle that lies inside the grid (a console
 // clips; what counts is what ends up drawn). 64-bit arithmetic: no wrap.
@@ -494,8 +494,20 @@ func ttyGenOps(t *rapid.T, gen func(*rapid.T) ttyOp) []ttyOp {
 }
 
 // ttyGenDim draws a grid dimension in 1..max: the edge value 1 over-represented,
-// otherwise spread over the whole range (half of the draws biased towards max).
+// otherwise spread over the whole range (small ranges: half of the draws biased
+// towards max; large ranges: a tenth of the range is chosen first).
 func ttyGenDim(t *rapid.T, label string, max int) uint32 {
+	if max > 20 {
+		if rapid.IntRange(0, 9).Draw(t, label+"edge") == 0 { // ~16%
+			return 1
+		}
+		step := max / 10
+		v := 1 + rapid.IntRange(0, 9).Draw(t, label+"tenth")*step + rapid.IntRange(0, step-1).Draw(t, label)
+		if v > max {
+			v = max
+		}
+		return uint32(v)
+	}
 	v := rapid.IntRange(1, max).Draw(t, label)
 	if rapid.Bool().Draw(t, label+"flip") {
 		v = max + 1 - v
